@@ -426,7 +426,9 @@ def isolation_matrix(R, B, rng):
             use_up(o.to_builder())
     kids = [B.Builder().store_uint(i, 4).end_cell() for i in range(4)]
     first = {'begin_parse': lambda c: c.begin_parse(), 'Slice.from_cell': lambda c: B.Slice.from_cell(c), 'to_slice': lambda c: c.to_slice(), 'copy': lambda c: c.copy(),
-             'to_builder': lambda c: c.to_builder()}
+             'to_builder': lambda c: c.to_builder(),
+             # the public constructors, handed the cell's own attributes
+             'Slice(cell.bits, cell.refs)': lambda c: B.Slice(c.bits, c.refs, c.type_), 'Cell(cell.bits, cell.refs)': lambda c: B.Cell(c.bits, c.refs, c.type_)}
     second = {'copy': lambda o: o.copy(), 'to_cell': lambda o: o.to_cell(), 'to_builder': lambda o: o.to_builder(), 'to_slice': lambda o: o.to_slice(), 'begin_parse': lambda o: o.begin_parse(),
               'end_cell': lambda o: o.end_cell(), 'store_slice': lambda o: B.Builder().store_slice(o), 'store_cell': lambda o: B.Builder().store_cell(o)}
     for nbits in (0, 1, 2, 3, 4, 5, 6, 7, 8, 9, 10, 11, 12, 64, 699, 700, 701, 1015, 1016, 1017, 1021, 1022, 1023):
@@ -495,6 +497,22 @@ def isolation_matrix(R, B, rng):
                 R.count('accessor_results_mutated')
                 if content(cell) != want or cell.hash != h0 or cell.to_boc(True, True) != boc0 or mon.call(cell.calculate_representation_hash) != ('ok', h0) or cell.copy().hash != h0:
                     R.violation(f'accessor-result-aliases-cell-{aname}', f'changing in place what {aname} returned ({type(x).__name__}) changed the cell', {'bits': nbits, 'refs': nrefs, 'accessor': aname})
+            # a cell constructed directly from the caller's own bit array and list (a plain bitarray, a builder's bits): the caller goes on using them
+            from bitarray import bitarray as _ba
+            own_bits, own_refs = _ba(bits), list(kids[:nrefs])
+            direct = B.Cell(own_bits, own_refs, -1)
+            d_h, d_boc = direct.hash, direct.to_boc(True, True)
+            mon.call(lambda: (own_bits.append(1) if len(own_bits) < 1023 else own_bits.invert(), own_refs.append(kids[0]) if len(own_refs) < 4 else own_refs.pop()))
+            R.check(content(direct) == want and direct.hash == d_h == h0 and direct.to_boc(True, True) == d_boc and direct.copy().hash == h0, 'directly-constructed-cell-aliases-callers-arrays',
+                    'a cell constructed from a plain bit array and a list changed when the caller went on using that array / list', {'bits': nbits, 'refs': nrefs})
+            bld = B.Builder().store_bits(bits)
+            for k in kids[:nrefs]:
+                bld.store_ref(k)
+            from_builder = B.Cell(bld.bits, bld.refs, -1)
+            mon.call(lambda: (bld.store_bits('1') if bld.available_bits else None, bld.store_ref(kids[0]) if bld.available_refs else None))
+            R.check(content(from_builder) == want and from_builder.hash == h0 and from_builder.copy().hash == h0, 'directly-constructed-cell-aliases-callers-arrays',
+                    'a cell constructed from a builder\'s bits and refs changed when the builder was written to', {'bits': nbits, 'refs': nrefs})
+            R.count('directly_constructed_cells')
             # a slice whose references have all been read still is its remaining content, whichever way it is turned into a cell
             if nrefs:
                 only_bits = B.Builder().store_bits(bits).end_cell().hash
